@@ -219,8 +219,7 @@ pub proof fn lemma_insert_view<V>(c0: Map<PathBuf, V>, c1: Map<PathBuf, V>, relv
         || (p == pv(rel) && (mget(a@, pv(rel)) is Some || mget(b@, pv(rel)) is Some))
         || (act == Action::Conflict(ConflictKind::BothChanged) && mget(a@, pv(rel)) is Some && mget(b@, pv(rel)) is Some
             && p == ln_of(a@, b@, pv(rel), host@)),
-//@replace /std::fs::remove_file\(&pa\)/ => vfs_remove_file(&pa, Tracked(w))
-//@replace /std::fs::remove_file\(&pb\)/ => vfs_remove_file(&pb, Tracked(w))
+//@replace? /std::fs::remove_file\((&?\w+)\)/ => vfs_remove_file(\1, Tracked(w)) #all
 //@replace /copy_atomic\(&pa, &pb\)/ => copy_atomic(&pa, &pb, Tracked(w)) #all
 //@replace /copy_atomic\(&pb, &pa\)/ => copy_atomic(&pb, &pa, Tracked(w)) #all
 //@replace /copy_atomic\(&lose_full, &lose_root\.join\(&loser_name\)\)/ => copy_atomic(&lose_full, &lose_root.join(&loser_name), Tracked(w))
